@@ -128,8 +128,8 @@ def rewriteResidual (g : IGraph) (addId idx : Nat) (selfAttn : Bool) : IGraph :=
         else x
     | _, _ => g
 
-/-- the whole backend -/
-def unitScaleBackend (user : List (String × String)) (userConstraintTargets : List String) (g0 : Graph) : Graph :=
+/-- passes 1–3: sweep, classification of the adds, plain adds unconstrained, residual adds rewritten -/
+def rewritten (user : List (String × String)) (g0 : Graph) : IGraph :=
   let g : IGraph := sweep user (IGraph.ofGraph g0)
   let deps := allDeps g
   let kinds := g.filterMap fun x => (classifyAdd g deps x).map fun k => (x.id, k)
@@ -139,18 +139,32 @@ def unitScaleBackend (user : List (String × String)) (userConstraintTargets : L
     | some .plain => { x with n := { x.n with target := "U.add", kwargs := setKw x.n.kwargs "constraint" (.lit "None") } }
     | _ => x
   -- residual adds, in graph order
-  let g : IGraph := kinds.foldl (fun (g : IGraph) (p : Nat × AddKind) =>
+  kinds.foldl (fun (g : IGraph) (p : Nat × AddKind) =>
     match p.2 with
     | .residual idx sa => rewriteResidual g p.1 idx sa
     | .plain => g) g
-  -- nodes with a later residual add keep their constraint; all others are unconstrained
+
+/-- ids of the residual adds and of everything they are computed from -/
+def residualMarked (g : IGraph) : List Nat :=
   let deps := allDeps g
-  let marked : List Nat := (g.filter (·.n.target == "U.residual_add")).flatMap fun x => x.id :: (deps.lookup x.id).getD []
-  let g : IGraph := g.map fun x =>
+  (g.filter (·.n.target == "U.residual_add")).flatMap fun x => x.id :: (deps.lookup x.id).getD []
+
+/-- last pass: nodes with a later residual add keep their constraint; all others are unconstrained -/
+def unconstrainPass (userConstraintTargets : List String) (g : IGraph) : IGraph :=
+  let marked := residualMarked g
+  g.map fun x =>
     if !marked.contains x.id && x.n.op == "call_function" &&
         (constraintTargets.contains x.n.target || userConstraintTargets.contains x.n.target) then
       { x with n := { x.n with kwargs := setKw x.n.kwargs "constraint" (.lit "None") } }
     else x
-  IGraph.toGraph g
+
+/-- executable check of topological order: ids are distinct and every input is the id of an earlier node -/
+def IGraph.topoB (g : IGraph) : Bool :=
+  (g.foldl (fun (st : List Nat × Bool) x =>
+    (x.id :: st.1, st.2 && !st.1.contains x.id && x.n.inputs.all (st.1.contains ·))) ([], true)).2
+
+/-- the whole backend -/
+def unitScaleBackend (user : List (String × String)) (userConstraintTargets : List String) (g0 : Graph) : Graph :=
+  IGraph.toGraph (unconstrainPass userConstraintTargets (rewritten user g0))
 
 end USModel
